@@ -1,7 +1,7 @@
 def register(PROPS, HARNESS_PKGS):
     def g(rates, bursts, beh, kinds='{"rate", "size"}'):
         return {"module": "AdmissionGen", "cfg": "Admission_gen.cfg", "params": {"Rates": rates, "Bursts": bursts, "Behaviours": beh, "Kinds": kinds}}
-    allb = '{"keepalive1", "newconn", "conns4", "burst", "twoips"}'
+    allb = '{"keepalive1", "newconn", "conns4", "burst", "twoips", "mixpaths", "drainwait"}'
     part = {
         "name": "admission",
         "mc": [{"module": "Admission", "cfg": "Admission_mc.cfg"}],
@@ -21,7 +21,7 @@ def register(PROPS, HARNESS_PKGS):
     HARNESS_PKGS.setdefault("security", "internal/adapter/security")
     PROPS["C17"] = {
         "rule": "TLC enumerates the admission grid: (rate, burst) x client behaviour (one keep-alive connection, a new "
-                "connection per request, 4 parallel connections, a concurrent burst, two source IPs) and body size "
+                "connection per request, 4 parallel connections, a concurrent burst, two source IPs, one client rotating over the proxy, provider and Anthropic routes, one that drains its burst and comes back after several housekeeping sweeps of the limiter) and body size "
                 "(max-1, max, max+1, 5*max) x declared/chunked length x route (proxy, provider, Anthropic); each runs "
                 "against the assembled server with those limits; every request is recorded with its [send, recv] "
                 "interval, status, whether a backend saw it and how many body bytes the backend got; TLC checks the "
